@@ -2,6 +2,7 @@
   `bt` scenario family: a tree, then tick / stop / blackboard-poke operations.
 -/
 import Driver.Codec
+import PyTreesModel.Edit
 
 namespace Bt
 open Codec
@@ -60,6 +61,12 @@ def stopAtL (target : Nat) : List Node → List Node × List Ev
 | c :: cs => let r := stopAt target c; let rs := stopAtL target cs; (r.1 :: rs.1, r.2 ++ rs.2)
 end
 
+def edit (st : St) : EditRes → St × List String
+| .done n tr => let st' := { st with tree := n }; (st', "R True" :: report st' tr)
+| .notFound => (st, "R False" :: report st [])
+| .runtimeError => (st, "R RuntimeError" :: report st [])
+| .typeError => (st, "R TypeError" :: report st [])
+
 def step (st : St) (line : String) : St × List String :=
   if st.dead then (st, ["SKIP"]) else
   match tokens line with
@@ -76,6 +83,18 @@ def step (st : St) (line : String) : St × List String :=
       | some v => let st' := { st with w := st.w.set k v, keys := k :: st.keys }; (st', report st' [])
       | none => (st, ["bad-op"])
   | ["unsetbb", k] => let st' := { st with w := st.w.unset k }; (st', report st' [])
+  | ["prune", i] =>
+      match i.toNat? with
+      | some i => edit st (st.tree.prune i)
+      | none => (st, ["bad-op"])
+  | "replace" :: i :: sub =>
+      match i.toNat?, parseTree sub with
+      | some i, some (t, []) => edit { st with keys := treeKeys t ++ st.keys } (st.tree.replace i t)
+      | _, _ => (st, ["bad-op"])
+  | "insert" :: p :: idx :: sub =>
+      match p.toNat?, idx.toInt?, parseTree sub with
+      | some p, some idx, some (t, []) => edit { st with keys := treeKeys t ++ st.keys } (st.tree.insert p idx t)
+      | _, _, _ => (st, ["bad-op"])
   | _ => (st, ["bad-op"])
 
 def init (treeLine : String) : Option St :=
